@@ -89,6 +89,7 @@ def cases(ctx):
     return out
 
 def run(ctx):
+    ctx.explanation = ("partial for part (2): exact GCD meaning, delta/vanishing-difference and run-block cost theorems are unconditional; the aggregate bound (W+8)*others + 52*runs depends on Huffman code lengths and is evaluated per instance; that the real merge stage folds divisors exactly is checked per instance by gcdExact (and, when present, by the training model's `explains`)")
     ctx.rule = ("enc stream on (1) lattices a+g*i incl. two lattices per chunk, merged ranges and divisors 2^e+1 near the float "
                 "rounding edge, (2) chunks of >= 2000 numbers with a 90-99.9% dominant value in scattered/clustered/end/alternating "
                 "arrangements at level >= 8, (3) sequences whose d-th wrapping differences vanish (integrated from random moments, "
